@@ -148,6 +148,65 @@ class Equiv:
         return _same(_fingerprint(segA, live, tail, self.captured), _fingerprint(segB, live, tail, self.captured))
 
 
+    # -- partial normalisation: replace the equivalent segments of a function that is not equivalent as a whole
+    def repair(self, A, B, whole=False) -> int:
+        """mutates the statement list A (current) towards B (reference): every differing segment that is equivalent to
+        its reference counterpart is replaced by it; returns the number of segments replaced"""
+        import copy
+
+        da, db = [_dump(s) for s in A], [_dump(s) for s in B]
+        if da == db:
+            return 0
+        n = 0
+        sm = difflib.SequenceMatcher(a=db, b=da, autojunk=False)
+        for tag, i1, i2, j1, j2 in reversed(sm.get_opcodes()):
+            if tag == "equal":
+                continue
+            segB, segA = B[i1:i2], A[j1:j2]
+            tail = whole and i2 == len(B) and j2 == len(A)
+            if len(segA) == 1 and len(segB) == 1 and type(segA[0]) is type(segB[0]):
+                a, b = segA[0], segB[0]
+                if isinstance(a, ast.If) and _dump(a.test) == _dump(b.test):
+                    n += self.repair(a.body, b.body, tail) + self.repair(a.orelse, b.orelse, tail)
+                    continue
+                if isinstance(a, (ast.For, ast.AsyncFor)) and _dump(a.target) == _dump(b.target) and _dump(a.iter) == _dump(b.iter):
+                    n += self.repair(a.body, b.body) + self.repair(a.orelse, b.orelse)
+                    continue
+                if isinstance(a, ast.While) and _dump(a.test) == _dump(b.test):
+                    n += self.repair(a.body, b.body) + self.repair(a.orelse, b.orelse)
+                    continue
+                if isinstance(a, (ast.With, ast.AsyncWith)) and [_dump(i) for i in a.items] == [_dump(i) for i in b.items]:
+                    n += self.repair(a.body, b.body)
+                    continue
+            try:
+                ok = self.segment(segA, segB, tail)
+            except RecursionError:
+                ok = False
+            if ok:
+                delta = (segA[0].lineno - segB[0].lineno) if segA and segB else 0
+                new = []
+                for st in segB:
+                    c = copy.deepcopy(st)
+                    if delta:
+                        ast.increment_lineno(c, delta)
+                    new.append(c)
+                A[j1:j2] = new
+                n += 1
+        if not A:
+            A.append(ast.Pass(lineno=1, col_offset=0))
+        return n
+
+
+def partial_normalise(cur_fn, ref_fn) -> int:
+    try:
+        e = Equiv(cur_fn, ref_fn)
+        if _dump(cur_fn.args) != _dump(ref_fn.args) and not _same_args(cur_fn.args, ref_fn.args):
+            return 0
+        return e.repair(cur_fn.body, ref_fn.body, whole=True)
+    except RecursionError:
+        return 0
+
+
 def _same_args(a: ast.arguments, b: ast.arguments) -> bool:
     def names(x):
         return (
